@@ -50,6 +50,11 @@ type Prog struct {
 	Txns    []TxnIn        `json:"txns"`
 	// DumpEvery n: fresh-process dump after every n-th transaction (and always after the last); <=1: after every one
 	DumpEvery int `json:"dump_every,omitempty"`
+	// Reposition: in an actively persisted, not cached store, move the cursor (First) before an Add while the current item
+	// holds a fetched value. A successful Add does not reposition the cursor but may shift the slots under it, after which
+	// unfetchCurrentValue works on another item and the fetched value is persisted inline or not depending on the node
+	// layout, which the list model cannot know. Without Reposition the correspondence case ends at such an Add.
+	Reposition bool `json:"reposition,omitempty"`
 }
 
 func valueOf(p *Prog, i int) string {
@@ -324,6 +329,11 @@ func runProg(res *hx.Result, p *Prog, idx int) {
 		var opTerms []string
 		repWrong, hasRemove, getThenUpdate, keyOnly := false, false, false, false
 		gotKeys := map[int]bool{}
+		gotAt := map[int]int{} // op index of the last Get of a key that fetched an out-of-node value
+		lastShift := -1        // op index of the last successful Add/Remove (slots move inside nodes)
+		dropTxn := false
+		pending, hasPending := 0, false // key of the current item holding a fetched value (actively persisted, not cached)
+		modeA := p.Opts.ActivelyP && !p.Opts.GlobalCache && !p.Opts.InNode
 		lookupID := func(key int, reposition bool) (sop.UUID, bool) {
 			e.Rec.Disarm()
 			defer e.Rec.Arm()
@@ -340,11 +350,24 @@ func runProg(res *hx.Result, p *Prog, idx int) {
 			}
 			return b.GetCurrentKey().ID, true
 		}
-		for _, op := range tx.Ops {
+		for oi, op := range tx.Ops {
 			e.Rec.Reset()
 			before := dumpTracker(b)
 			var coqOp, coqRes string
 			res.Count("op." + op.K)
+			if hasPending && (op.K == "a" || op.Key != pending) {
+				if op.K == "a" && modeA {
+					if p.Reposition {
+						e.Rec.Disarm()
+						b.First(ctx)
+						e.Rec.Arm()
+					} else if !stopCorr {
+						stopCorr = true
+						res.Count("corr.truncated-at-add-under-fetched-cursor")
+					}
+				}
+				hasPending = false
+			}
 			switch op.K {
 			case "a":
 				v := valueOf(p, op.Val)
@@ -356,6 +379,7 @@ func runProg(res *hx.Result, p *Prog, idx int) {
 				}
 				if ok {
 					work[op.Key] = v
+					lastShift = oi
 					if u, f := lookupID(op.Key, true); f {
 						if _, known := r.canon[u]; !known {
 							r.canon[u] = r.nextID
@@ -452,6 +476,7 @@ func runProg(res *hx.Result, p *Prog, idx int) {
 				rep := op.Key
 				if ok {
 					hasRemove = true
+					lastShift = oi
 					delete(work, op.Key)
 					after := dumpTracker(b)
 					if u, f := reported(before, after); f {
@@ -494,10 +519,21 @@ func runProg(res *hx.Result, p *Prog, idx int) {
 					} else {
 						coqRes = fmt.Sprintf("RVal true %d", r.token(v))
 						if !exists || v != want {
-							res.Fail("op-result:get-value:"+mode, fmt.Sprintf("Get(%d) returned %d bytes, want %d bytes (exists=%v)", op.Key, len(v), len(want), exists), p)
+							sig := "op-result:get-value:" + mode
+							if at, was := gotAt[op.Key]; exists && v == "" && was && at < lastShift && p.Opts.ActivelyP && !p.Opts.GlobalCache && !p.Opts.InNode {
+								// the tracker's get entry still points at the slot the item occupied before the node's slots moved
+								sig = "actively-persisted:get-after-slot-shift-returns-zero-value"
+								dropTxn = true // slot positions are not in the list model: the correspondence case ends before this transaction
+								res.Count("failure." + sig)
+							}
+							res.Fail(sig, fmt.Sprintf("Get(%d) returned %d bytes, want %d bytes (exists=%v)", op.Key, len(v), len(want), exists), p)
 							r.failed = true
 						}
 						gotKeys[op.Key] = true
+						if strings.Contains(r.calls(ctx, e.Rec.Snapshot()), "BGet") {
+							gotAt[op.Key] = oi
+							pending, hasPending = op.Key, true
+						}
 					}
 				}
 			}
@@ -588,7 +624,7 @@ func runProg(res *hx.Result, p *Prog, idx int) {
 				}
 			}
 		}
-		if !stopCorr {
+		if !stopCorr && !dropTxn {
 			vt := "None"
 			if doDump {
 				vt = "(Some " + hx.CoqList(view) + ")"
@@ -716,13 +752,21 @@ func corpus() []*Prog {
 	p4 := &Prog{Name: "finding-rollback-key-only", Opts: mkOpts(sopx.StoreOpts{ActivelyP: true}, 4), HashMod: 2, Vals: small(64)}
 	p4.Txns = []TxnIn{{Ops: []Op{{K: "a", Key: 1, Val: 1}, {K: "a", Key: 2, Val: 2}}, Commit: true}, {Ops: []Op{{K: "u", Key: 1, Val: 3}}, Commit: true}, {Ops: []Op{{K: "a", Key: 4, Val: 4}, {K: "k", Key: 1}}, Commit: false}}
 	ps = append(ps, p4)
+	// finding F5: actively persisted (not cached) store: Get of an out-of-node value, then a Remove that shifts the node's
+	// slots, then Get of the same key again returns the zero value
+	p5 := &Prog{Name: "finding-get-after-shift", Opts: mkOpts(sopx.StoreOpts{ActivelyP: true}, 16), HashMod: 2, Vals: small(64)}
+	p5.Txns = []TxnIn{{Ops: []Op{{K: "a", Key: 4, Val: 2}, {K: "a", Key: 2, Val: 3}, {K: "a", Key: 0, Val: 4}}, Commit: true}, {Ops: []Op{{K: "u", Key: 4, Val: 5}}, Commit: true}, {Ops: []Op{{K: "a", Key: 9, Val: 1}, {K: "g", Key: 4}, {K: "r", Key: 0}, {K: "g", Key: 4}}, Commit: true}}
+	ps = append(ps, p5)
+	for _, q := range ps {
+		q.Reposition = true
+	}
 	return ps
 }
 
 func genProg(r *hx.Rng, tier string, i int) *Prog {
 	m := hx.Pick(r, modes)
 	slot := hx.Pick(r, []int{2, 2, 4, 4, 8, 16, 64})
-	p := &Prog{Name: fmt.Sprint("rand", i), Opts: mkOpts(m, slot), HashMod: hx.Pick(r, []int{1, 2, 5}), DumpEvery: hx.Pick(r, []int{1, 2, 3})}
+	p := &Prog{Name: fmt.Sprint("rand", i), Opts: mkOpts(m, slot), HashMod: hx.Pick(r, []int{1, 2, 5}), DumpEvery: hx.Pick(r, []int{1, 2, 3}), Reposition: r.Chance(70)}
 	nv := 48
 	p.Vals = make([]ValSpec, nv)
 	big := 65536
@@ -736,7 +780,12 @@ func genProg(r *hx.Rng, tier string, i int) *Prog {
 		case k == 1:
 			p.Vals[j].Size = 1
 		case k == 2:
-			p.Vals[j].Size = 4096 + r.Intn(big-4096+1)
+			sz := 4096 << r.Intn(10) // 4 KiB .. 2 MiB, log-uniform
+			sz += r.Intn(sz)
+			if sz > big {
+				sz = big
+			}
+			p.Vals[j].Size = sz
 		case k < 6:
 			p.Vals[j].Size = 100 + r.Intn(4000)
 		default:
@@ -808,9 +857,9 @@ func runC19(cfg *hx.RunCfg) (*hx.Result, error) {
 	}
 	n := cfg.N
 	if n == 0 {
-		n = 28
+		n = 40
 		if cfg.Tier == "thorough" {
-			n = 2000
+			n = 400
 		}
 	}
 	idx := 0
@@ -818,10 +867,23 @@ func runC19(cfg *hx.RunCfg) (*hx.Result, error) {
 		runProg(res, p, idx)
 		idx++
 	}
+	// wall-clock budget for the random part (the machine may be heavily loaded): programs are a deterministic function of
+	// (seed, index), a run that hits the budget just covers a prefix of the same sequence; the count is in the evidence
+	budget := 50 * time.Second
+	if cfg.Tier == "thorough" {
+		budget = 11 * time.Minute
+	}
+	if cfg.N != 0 {
+		budget = 24 * time.Hour
+	}
+	start := time.Now()
 	r := hx.NewRng(cfg.Seed)
-	for i := 0; i < n; i++ {
+	ran := 0
+	for i := 0; i < n && time.Since(start) < budget; i++ {
 		runProg(res, genProg(r, cfg.Tier, i), idx)
 		idx++
+		ran++
 	}
+	res.Notes = append(res.Notes, fmt.Sprintf("random programs run: %d of at most %d (budget %v)", ran, n, budget))
 	return res, nil
 }
